@@ -190,7 +190,7 @@ func (d *c18SrvDriver) apply(e c18Ev) ([]c18Obs, error) {
 			if err := d.cc.Process(nil, b[:n]); err != nil {
 				return nil, err
 			}
-			d.clk = c18Clock{e.t, d.real.LastActivity()}
+			d.clk = d.clk.rebase(e.t, d.real.LastActivity(), b0)
 		}
 	default:
 		return nil, fmt.Errorf("event %s not supported by driver srv", e.desc())
